@@ -925,6 +925,10 @@ func (ce *cenv) evalCall(e *CExpr) cvar {
 		return cvar{v: mkSelect(ce.st.H("ghost:"+e.Name+":"+e.Args[0].String(), arraySort(sortInt, sortInt)), x.toTerm(v.v, v.t)), t: mathInt}
 	case "cfbenc", "cfbdec", "bytesmatch":
 		return ce.evalCrypto(e)
+	case "emptystr":
+		// the empty string (the same term the Go constant "" translates to)
+		argn(0)
+		return cvar{v: mkVar(fmt.Sprintf("strlit!%x", hashStr("")), sortStr), t: types.Typ[types.String]}
 	case "room":
 		// room(ch): a send on the channel cannot block (ghost upper bound of the length, kept for a
 		// channel with a declared sole producer, is below the capacity)
